@@ -1,6 +1,17 @@
 """C20 - file interception preserves file bytes and honours the size limit."""
 import base64
+import binascii
+import bz2
+import gzip
+import io
 import itertools
+import json
+import lzma
+import pickle
+import quopri
+import re
+import zipfile
+import zlib
 from fractions import Fraction
 
 from lib import filespec
@@ -13,7 +24,9 @@ DRIVER = "files_driver.py"
 SHARD = 120
 MB = 1 << 20
 RULE = ("one case = one end-to-end trip (input + output file handler, record -> save on one of the three cassettes -> "
-        "fetch -> replay at different paths, the replayed path possibly holding a file already), one sequence (several "
+        "fetch -> replay at different paths, the replayed path possibly holding a file already; contents include files "
+        "that are themselves complete encodings: zlib / gzip / raw deflate / bz2 / xz / zip blobs, base64 / base32 / "
+        "hex / quoted-printable texts, json envelopes, pickles, byte-order marks), one sequence (several "
         "recordings replayed one after another / twice into the same path; recordings made one after another of ONE "
         "recorded path whose file is rewritten in between), one history (one operation handing one path to the input "
         "and output file handlers 2-5 times, the file rewritten between interceptions with other bytes of the same / "
@@ -120,6 +133,55 @@ def content_catalogue(rng, extra_random=0):
         n = rng.choice([rng.randrange(0, 40), rng.randrange(40, 400), rng.randrange(400, 2500)])
         cat.append(("random-%d" % n, {"sha": rng.randrange(1 << 30), "n": n}))
     return cat
+
+
+def encoded_catalogue(rng):
+    """Contents that are themselves complete, valid encodings in a self-describing format - what a decoder that goes
+    by the bytes alone (magic number, checksum, alphabet) would recognise: deflated / archived blobs, transfer
+    encodings, serialised envelopes.  The handlers carry bytes; whatever the bytes spell, they come back as they were.
+    All derived from three payloads: a csv text, random binary, a short line."""
+    regions = [b"north", b"south", b"east", b"west"]
+    text = b"id,region,value\n" + b"".join(b"%d,%s,%d\n" % (i, rng.choice(regions), rng.randrange(10 ** 6))
+                                            for i in range(rng.randrange(40, 70)))
+    binary = expand({"sha": rng.randrange(1 << 30), "n": rng.randrange(500, 900)})
+    line = b"hello world\n"
+    z = zlib.compress(text)
+
+    def deflate(payload, level, wbits):
+        co = zlib.compressobj(level, zlib.DEFLATED, wbits)
+        return co.compress(payload) + co.flush()
+
+    def zipped(payload):
+        buf = io.BytesIO()
+        with zipfile.ZipFile(buf, "w", zipfile.ZIP_DEFLATED) as zf:
+            zf.writestr(zipfile.ZipInfo("a.csv"), payload)      # ZipInfo's default date: 1980-01-01
+        return buf.getvalue()
+    b64 = base64.b64encode
+    cat = [("zlib%d:text" % lv, zlib.compress(text, lv)) for lv in (0, 1, 6, 9)]
+    cat += [
+        ("zlib:binary", zlib.compress(binary, 9)), ("zlib:line", zlib.compress(line)), ("zlib:empty", zlib.compress(b"")),
+        ("zlib:placeholder", zlib.compress(PLACEHOLDER)), ("zlib:zlib", zlib.compress(z)),
+        ("zlib:window512", deflate(text, 6, 9)), ("zlib+trailing", z + b"\n"), ("zlib-truncated", z[:-3]),
+        ("zlib-badsum", z[:-1] + bytes([z[-1] ^ 1])), ("zlib-twice", z + z), ("deflate-raw", deflate(text, 6, -15)),
+        ("gzip:text", gzip.compress(text, mtime=0)), ("gzip:empty", gzip.compress(b"", mtime=0)),
+        ("gzip:zlib-made", deflate(binary, 6, 31)), ("bz2:text", bz2.compress(text)), ("xz:text", lzma.compress(text)),
+        ("lzma-alone:text", lzma.compress(text, format=lzma.FORMAT_ALONE)), ("zip:text", zipped(text)),
+        ("b64:text", b64(text)), ("b64:binary", b64(binary)), ("b64:b64", b64(b64(line))), ("b64:zlib", b64(z)),
+        ("b64:lines", base64.encodebytes(binary)), ("b64:urlsafe", base64.urlsafe_b64encode(b"\xfb\xff\xfe" * 20)),
+        ("b64:short", b"QUJD"), ("b64:nopad", b"QUJDRA"), ("b64:placeholder-nl", b64(PLACEHOLDER) + b"\n"),
+        ("b32:line", base64.b32encode(line)), ("hex:binary", binascii.hexlify(binary[:200])),
+        ("a85:binary", base64.a85encode(binary[:200])), ("qp:binary", quopri.encodestring(binary[:150])),
+        ("percent:line", b"hello%20world%0A%00%ff"), ("data-url", b"data:application/octet-stream;base64," + b64(line)),
+        ("json:text", json.dumps({"rows": [1, 2.5, None, "x"], "name": "csv"}).encode()),
+        ("json:py-b64", json.dumps({"py/b64": b64(binary[:90]).decode()}).encode()),
+        ("json:py-bytes", json.dumps({"py/bytes": "=00=FFab"}).encode()),
+        ("json:envelope", json.dumps({"file_path": "/tmp/x", "file_content": b64(line).decode()}).encode()),
+        ("json:envelope-placeholder", json.dumps({"file_path": "p", "file_content": PLACEHOLDER.decode()}).encode()),
+        ("pickle2:text", pickle.dumps(text, protocol=2)), ("pickle4:dict", pickle.dumps({"a": [1, 2], "b": line}, protocol=4)),
+        ("bom:utf8", u"caf\u00e9 \u2713\n".encode("utf-8-sig")), ("bom:utf16", u"caf\u00e9 \u2713\n".encode("utf-16")),
+        ("bom:utf32", u"ok\n".encode("utf-32")), ("repr:bytes", repr(binary[:60]).encode()),
+    ]
+    return [(tag, hexspec(b)) for tag, b in cat]
 
 
 IN_MODES = ["pos", "kw", "pos+kwnone", "pos+kwempty"]
@@ -413,6 +475,23 @@ def generate(rng, tier):
         if rng.random() < 0.3:
             kwargs["other"] = rng.choice(vals)
         cases.append({"kind": "path", "index": rng.randrange(-5, 5), "name": name, "args": args, "kwargs": kwargs, "tag": ""})
+    # 12. contents that are themselves encodings (deflated / archived blobs, base64 and other transfer encodings, json
+    #     envelopes, pickles, byte-order marks): every one once as the input file and once as the output file of a trip
+    #     (default limit / a limit of exactly its size / 1 MB from the environment), through the envelope at unit
+    #     level, and replayed one after another into one path.  Drawn last: the cases above stay what they were.
+    enc = encoded_catalogue(rng)
+    for i, (tag, spec) in enumerate(enc):
+        lim = [LIM_DEFAULT, lim_explicit_bytes(size_of(spec)), lim_env("1")][i % 3]
+        cases.append(trip_case(rng, next(dims), spec, lim, out_content=enc[(i + 7) % len(enc)][1], tag="encoded:" + tag))
+        cases.append({"kind": "b64", "content": spec, "tag": "encoded:" + tag})
+    for rep in range(2 if quick else 10):
+        mix = [spec for _, spec in rng.sample(enc, 5)]
+        cases.append(seq_case(mix, [0, 1, 2, 3, 4, 1, 0], LIM_DEFAULT, None, "encoded-mix"))
+    if not quick:
+        for i, (tag, spec) in enumerate(enc):
+            for cas in cassettes:
+                cases.append(trip_case(rng, next(dims), spec, LIM_DEFAULT, out_content=enc[(i + 3) % len(enc)][1],
+                                       tag="encoded:" + tag, cassette=cas))
     # heavy trips first, then dealt round-robin so that every Coq shard gets its share of the long byte strings
     heavy = lambda c: sum(size_of(x) for x in c["contents"]) if c["kind"] == "seq" else \
         sum(size_of(st["content"]) for st in c["steps"]) if c["kind"] == "hist" else size_of(c["content"])
@@ -828,6 +907,8 @@ def features(case):
         n = size_of(case["content"])
         f.add("size:" + ("0" if n == 0 else "<=4096" if n <= 4096 else "<=1MiB" if n <= MB else ">1MiB"))
         f.add("content:" + case["tag"].split("@")[0].split(":")[0])
+        if case["tag"].startswith("encoded:"):
+            f.add("content-encoded-as:" + re.match(r"[a-z]*", case["tag"].split(":")[1]).group(0))
         if case["in"]["index"] < 0 or case["out"]["index"] < 0:
             f.add("negative-index")
         if case.get("dir") == "unicode":
@@ -947,7 +1028,7 @@ def search_harder(rng, bad_cases):
 
 MANIFEST = dict(
     design_ref='6/C20',
-    text='Coq theorems for every byte string, path, way of passing the path (keyword / position), file-system and quoted-printable oracle: record -> cassette -> replay writes exactly the recorded bytes at the path of the REPLAYED call (input handler) / yields a holder with exactly those bytes (output handler), also when the content is the placeholder text; above the limit the placeholder is recorded and the file is never opened; the size test is the exact rational comparison size > limit*2^20 with the three boundary corollaries and int(float(env)) for the environment variable; a concrete RFC 4648 base64 codec with b64dec(b64enc b) = b, alphabet and length laws. Model tied to /repo on every run: the real handlers are driven end to end through the real TapeRecorder and the three real cassettes (in-memory, file, S3 over a fake bucket) on contents {empty, all 256 byte values, newlines, placeholder and near-placeholder texts, random binary, multi-MB} x sizes limit-1/limit/limit+1 x explicit float / int / environment limits x keyword / position x static / instance, and at unit level (base64 text, size check, path lookup); Coq compares with the model by vm_compute; the direct predicate (restored bytes == original at the replayed path, holder content == original, above-limit files never opened and recorded as the placeholder) searches for a failing input. Histories on one path (theorems C20_history_input/_output: the k-th recording of a path is made of what the file holds at the k-th interception): the same recorded path intercepted repeatedly - across recordings and 2-5 times inside one operation, by input and output handlers in every order - with the file rewritten in between (same length, modification time stamped / kept / clock, in place / replaced).',
+    text='Coq theorems for every byte string, path, way of passing the path (keyword / position), file-system and quoted-printable oracle: record -> cassette -> replay writes exactly the recorded bytes at the path of the REPLAYED call (input handler) / yields a holder with exactly those bytes (output handler), also when the content is the placeholder text; above the limit the placeholder is recorded and the file is never opened; the size test is the exact rational comparison size > limit*2^20 with the three boundary corollaries and int(float(env)) for the environment variable; a concrete RFC 4648 base64 codec with b64dec(b64enc b) = b, alphabet and length laws. Model tied to /repo on every run: the real handlers are driven end to end through the real TapeRecorder and the three real cassettes (in-memory, file, S3 over a fake bucket) on contents {empty, all 256 byte values, newlines, placeholder and near-placeholder texts, random binary, multi-MB, and 48 contents that are themselves valid encodings (deflated / archived blobs at several levels and framings incl. truncated, bad-checksum and concatenated streams, base64 family and other transfer encodings, json / jsonpickle-looking / serialized-envelope texts, pickles, byte-order marks) - the bytes come back as recorded whatever they spell} x sizes limit-1/limit/limit+1 x explicit float / int / environment limits x keyword / position x static / instance, and at unit level (base64 text, size check, path lookup); Coq compares with the model by vm_compute; the direct predicate (restored bytes == original at the replayed path, holder content == original, above-limit files never opened and recorded as the placeholder) searches for a failing input. Histories on one path (theorems C20_history_input/_output: the k-th recording of a path is made of what the file holds at the k-th interception): the same recorded path intercepted repeatedly - across recordings and 2-5 times inside one operation, by input and output handlers in every order - with the file rewritten in between (same length, modification time stamped / kept / clock, in place / replaced).',
     note='Trusted: Coq kernel + vm_compute; hand-written model; correspondence harness (fake bucket behind the real S3BasicFacade, journalling wrapper around open, substituted os.path.getsize for sizes that cannot be materialised); jsonpickle\'s coding of bytes is an oracle (model A) exercised end to end; float comparison exact for sizes < 2^53.',
     technique='Coq proof (lia + finite sweep over the 64 base64 digits, exact rationals for the limit) + model/implementation correspondence by vm_compute + direct predicate end to end',
 )
